@@ -861,7 +861,16 @@ func (l *commitLog) Clean() error {
 	if epochCache != nil {
 		err = l.leaderEpochCache.Replace(epochCache)
 	} else {
-		err = l.leaderEpochCache.ClearEarliest(l.segments[0].BaseOffset)
+		// If the log holds no messages, the base offset of the remaining
+		// segment is one past the newest offset. Don't move the earliest
+		// leader epoch past the newest offset because this is the offset
+		// NewLeaderEpoch assigns the next leader epoch to, which would be
+		// rejected for being less than the latest start offset.
+		earliest := l.segments[0].BaseOffset
+		if newest := l.NewestOffset(); newest < earliest {
+			earliest = newest
+		}
+		err = l.leaderEpochCache.ClearEarliest(earliest)
 	}
 	l.mu.Unlock()
 	return err
